@@ -42,6 +42,50 @@ json.dump({"schema": top, "versions": versions}, sys.stdout)
 """
 
 
+_SEQ = r"""
+import json, sys
+from pydantic import ConfigDict
+from pydantic.json_schema import models_json_schema
+from hugr._serialization.extension import Extension, Package
+from hugr._serialization.serial_hugr import SerialHugr
+from hugr._serialization.testing_hugr import TestingHugr
+R = {"SerialHugr": SerialHugr, "TestingHugr": TestingHugr}
+for item in sys.argv[1:]:
+    rn, st = item.split(":")
+    root = R[rn]
+    cfg = ConfigDict(strict=True, extra="forbid") if st == "1" else ConfigDict(strict=False, extra="allow")
+    root._pydantic_rebuild(cfg, force=True)
+_, top = models_json_schema([(s, "validation") for s in (root, Extension, Package)], title="HUGR schema")
+json.dump(top, sys.stdout)
+"""
+
+
+def histories(maxlen):
+    """Every sequence (length 2..maxlen) of (root model, strict?) rebuilds; the schema generated after
+    the last one is compared with the published file of that last configuration."""
+    import itertools
+
+    confs = [(root, strict) for root, strict in FILES.values()]
+    for n in range(2, maxlen + 1):
+        for h in itertools.product(confs, repeat=n):
+            # TestingHugr's rebuild deliberately leaves SerialHugr (nested through function values) in
+            # whatever configuration it last had, and the published testing files are generated before
+            # SerialHugr is ever rebuilt: a testing schema after a SerialHugr rebuild is outside what
+            # the property relates to the published files (see DESIGN section 11).
+            if h[-1][0] == "TestingHugr" and any(r == "SerialHugr" for r, _ in h):
+                continue
+            yield h
+
+
+def run_history(h):
+    _, env = _env()
+    args = [f"{r}:{1 if s else 0}" for r, s in h]
+    r = subprocess.run([sys.executable, "-B", "-c", _SEQ, *args], env=env, capture_output=True, text=True, timeout=600)
+    if r.returncode != 0:
+        return None, r.stderr[-300:]
+    return json.loads(r.stdout), None
+
+
 def _env():
     repo = os.environ.get("HUGR_REPO", "/repo")
     env = dict(os.environ)
@@ -153,7 +197,7 @@ def _at(x, path):
         return None
 
 
-def run_all():
+def run_all(tier="quick"):
     repo, env = _env()
     pubdir = os.path.join(repo, "specification", "schema")
     fails = []
@@ -210,14 +254,35 @@ def run_all():
             fails += f
             total["defs"] += st["defs"]
             total["edges"] += st["edges"]
+    total["histories"] = 0
+    if tier == "thorough":
+        from concurrent.futures import ThreadPoolExecutor
+
+        prefix_of = {v: k for k, v in FILES.items()}
+        hs = list(histories(4))
+        with ThreadPoolExecutor(max_workers=os.cpu_count() or 4) as ex:
+            outs = list(ex.map(run_history, hs))
+        for h, (gen, err) in zip(hs, outs):
+            total["histories"] += 1
+            prefix = prefix_of[h[-1]]
+            tag = ">".join(f"{r[0]}{'s' if st else 'l'}" for r, st in h)
+            if gen is None:
+                fails.append((f"history:{tag}:failed", f"rebuild history {h} failed: {err}"))
+                continue
+            pub_path = os.path.join(pubdir, f"{prefix}_{v}.json")
+            if os.path.exists(pub_path):
+                f, st_ = compare(json.load(open(pub_path)), gen, prefix, f"history[{tag}]")
+                fails += f
+                total["defs"] += st_["defs"]
+                total["edges"] += st_["edges"]
     return fails, total, versions
 
 
 def run(tier: str, seed: int) -> Result:
     col = Collector()
-    fails, total, versions = run_all()
+    fails, total, versions = run_all(tier)
     for sig, msg in fails:
-        col.add(sig, msg, {"all": True})
+        col.add(sig, msg, {"all": True, "tier": tier})
     col.sample({"files": sorted(FILES), "modes": ["scripts/generate_schema.py (strict,lax,strict,lax in one process)", "one configuration per fresh process"]})
     cov = {
         "states": max(1, total["defs"]),
@@ -227,14 +292,17 @@ def run(tier: str, seed: int) -> Result:
         "distinct_nontrivial": total["defs"],
         "rule": "state = schema definition reachable through $ref from SerialHugr/TestingHugr/Extension/Package, transition = $ref edge; the graphs of "
         "the 4 published files and of the 4 regenerated schemas (x2 generation modes) are closed completely and compared definition by "
-        "definition after erasing `additionalProperties: true`; model version strings vs file names",
+        "definition after erasing `additionalProperties: true`; model version strings vs file names; thorough: additionally every history of "
+        "2..4 rebuilds over the 4 (root, strict/lax) configurations in one process (testing schemas only for histories that never rebuilt "
+        "SerialHugr), schema after the last rebuild vs the published file",
         "samples": col.samples,
         "exhaustive": True,
         "files_compared": total["files"],
+        "rebuild_histories": total["histories"],
         "model_versions": versions,
     }
     return Result(cov, col.violations, ["`additionalProperties: true` is void in JSON Schema (emitted by the installed pydantic for dict[str, Any] fields)", "structural identity of schemas, as the property's quantifier prescribes; no document sampling"])
 
 
 def replay(case) -> list[Violation]:
-    return [Violation(s, m, case) for s, m in run_all()[0]]
+    return [Violation(s, m, case) for s, m in run_all(case.get("tier", "quick"))[0]]
